@@ -11,13 +11,25 @@ EXTENDS Renet, Json, IOUtils
 
 Rec == ndJsonDeserialize(IOEnv.TRACE)
 
-VARIABLES l, w, skip, cnt
-vars == <<l, w, skip, cnt>>
+VARIABLES l, w, skip, cnt, lu
+vars == <<l, w, skip, cnt, lu>>
 
 Init == /\ l = 1
         /\ w = NewWorld
         /\ skip = FALSE
         /\ cnt = [runs |-> 0, matched |-> 0, drift |-> 0, accepted |-> 0]
+        /\ lu = [s \in {"S", "C"} |-> <<>>]
+
+\* The log of emitted packets only matters while a later event of the trace still delivers one of them.  The trace is known in
+\* advance: every flush event carries `last_use`, the index of the last event of its run that delivers a packet of that flush
+\* (0 = never).  Flushes past their last use are emptied (their place in the sequence stays), which keeps the model state --
+\* and the cost of every step -- bounded by what is in flight instead of growing with the length of the run.
+NOUSE == 1073741823
+LastUse(e) == IF "last_use" \in DOMAIN e THEN e.last_use ELSE NOUSE
+Dead(u, s, fl, i) == fl <= Len(u[s]) /\ u[s][fl] <= i
+Prune(x, u, i) ==
+    [x EXCEPT !.net = [s \in {"S", "C"} |-> [fl \in 1..Len(x.net[s]) |-> IF Dead(u, s, fl, i) THEN <<>> ELSE x.net[s][fl]]],
+              !.dl = [k \in {y \in DOMAIN x.dl : ~Dead(u, y[1], y[2], i)} |-> x.dl[k]]]
 
 \* fields of the predicted event that the recorded event contradicts
 Diff(pred, rec, ignore) == {f \in (DOMAIN pred) \ ignore : f \in DOMAIN rec /\ pred[f] # rec[f]}
@@ -40,21 +52,22 @@ Next == /\ l <= Len(Rec)
         /\ l' = l + 1
         /\ LET e == Rec[l] IN
            IF e.ev = "reset"
-           THEN /\ w' = NewWorld /\ skip' = FALSE
+           THEN /\ w' = NewWorld /\ skip' = FALSE /\ lu' = [s \in {"S", "C"} |-> <<>>]
                 /\ cnt' = [cnt EXCEPT !.runs = @ + 1, !.accepted = IF ~skip /\ cnt.runs > 0 THEN @ + 1 ELSE @]
-           ELSE IF skip THEN UNCHANGED <<w, skip, cnt>>
-           ELSE IF e.ev = "heal" THEN /\ w' = (IF e.lose THEN DoLose(w) ELSE w) /\ UNCHANGED <<skip, cnt>>
-           ELSE IF ~Known(e) THEN UNCHANGED <<w, skip, cnt>>
+           ELSE IF skip THEN UNCHANGED <<w, skip, cnt, lu>>
+           ELSE IF e.ev = "heal" THEN /\ w' = (IF e.lose THEN DoLose(w) ELSE w) /\ UNCHANGED <<skip, cnt, lu>>
+           ELSE IF ~Known(e) THEN UNCHANGED <<w, skip, cnt, lu>>
            ELSE IF e.ev = "deliver" /\ e.label = "genuine" /\
                    ~(e.fl \in 1..Len(w.net[Other(e.side)]) /\ e.ix \in 1..Len(w.net[Other(e.side)][e.fl]))
            THEN \* the code emitted a packet the model did not predict (drift was reported at the flush)
-                /\ skip' = TRUE /\ UNCHANGED w /\ cnt' = [cnt EXCEPT !.drift = @ + 1]
+                /\ skip' = TRUE /\ UNCHANGED <<w, lu>> /\ cnt' = [cnt EXCEPT !.drift = @ + 1]
                 /\ PrintT(<<"DRIFT", ToJson([run |-> e.run, i |-> e.i, ev |-> e.ev, fields |-> {"no such packet in the model"}])>>)
            ELSE LET r == Predict(e)
                     d == Diff(r.ev, e, Ignore(e))
                 IN IF d = {}
-                   THEN /\ w' = TLCEval(r.w) /\ skip' = FALSE /\ cnt' = [cnt EXCEPT !.matched = @ + 1]
-                   ELSE /\ w' = w /\ skip' = TRUE /\ cnt' = [cnt EXCEPT !.drift = @ + 1]
+                   THEN LET u == IF e.ev = "flush" THEN [lu EXCEPT ![e.side] = Append(@, LastUse(e))] ELSE lu IN
+                        /\ lu' = u /\ w' = TLCEval(Prune(r.w, u, e.i)) /\ skip' = FALSE /\ cnt' = [cnt EXCEPT !.matched = @ + 1]
+                   ELSE /\ w' = w /\ lu' = lu /\ skip' = TRUE /\ cnt' = [cnt EXCEPT !.drift = @ + 1]
                         /\ PrintT(<<"DRIFT", ToJson([run |-> e.run, i |-> e.i, ev |-> e.ev, fields |-> d])>>)
 
 Spec == Init /\ [][Next]_vars
